@@ -7,7 +7,11 @@ import (
 	"regexp"
 	"sort"
 	"strings"
+	"sync"
 )
+
+// sliceMu guards the per-root caches (slice info, cones): obligations of one function are solved concurrently.
+var sliceMu sync.Mutex
 
 var symRe = regexp.MustCompile(`[A-Za-z_][A-Za-z0-9_!.]*`)
 
@@ -40,6 +44,8 @@ type sliceCache struct {
 }
 
 func (r *Root) sliceInfo() *sliceCache {
+	sliceMu.Lock()
+	defer sliceMu.Unlock()
 	if r.slice != nil && len(r.slice.itemSym) == len(r.items) {
 		return r.slice
 	}
@@ -86,6 +92,8 @@ func (r *Root) sliceInfo() *sliceCache {
 // Facts produced while encoding a block outside the cone are guarded by a reach condition that is incompatible with the
 // obligation's own, so dropping them loses nothing (and dropping hypotheses is always sound).
 func (r *Root) cone(blk int) map[int]bool {
+	sliceMu.Lock()
+	defer sliceMu.Unlock()
 	if blk < 0 || r.fn == nil || blk >= len(r.fn.Blocks) {
 		return nil
 	}
